@@ -238,6 +238,23 @@ func genKeyGrid(r *rng, n int, p func(string, ...any)) {
 			p("keyuse %s", okp(wArr(wInt(2), wTstr(nm))))
 		}
 	}
+	// extra parameters whose values carry tags on the wire (bignums around 2^63 / 2^64, other tags,
+	// nested): accepted, and the re-encoding decodes to the same canonical bytes
+	for _, v := range []*W{
+		wTag(2, wBstr([]byte{0x80, 0, 0, 0, 0, 0, 0, 0})), wTag(2, wBstr([]byte{0xff, 0xff, 0xff, 0xff, 0xff, 0xff, 0xff, 0xff})),
+		wTag(2, wBstr([]byte{0x7f, 0xff, 0xff, 0xff, 0xff, 0xff, 0xff, 0xff})), wTag(2, wBstr([]byte{1, 0, 0, 0, 0, 0, 0, 0, 0})),
+		wTag(3, wBstr([]byte{0x80, 0, 0, 0, 0, 0, 0, 0})), wTag(3, wBstr([]byte{0xff, 0xff, 0xff, 0xff, 0xff, 0xff, 0xff, 0xff})), wTag(2, wBstr([]byte{5})),
+		{M: 1, HW: 8, N: 1 << 63}, {M: 1, HW: 8, N: 1<<64 - 1}, {M: 0, HW: 8, N: 1 << 63},
+		wTag(37, wBstr(make([]byte, 16))), wTag(1, wInt(1700000000)), wTag(100, wArr(wInt(1), wTstr("x"))),
+		wArr(wTag(2, wBstr([]byte{0x80, 0, 0, 0, 0, 0, 0, 0})), wInt(1)), wMap(wInt(1), wTag(32, wTstr("urn:x"))),
+	} {
+		k := &keyFields{kty: wInt(1), crv: wInt(6), x: wBstr(r.bytes(32)), kid: wBstr([]byte{1}), ops: wArr(wInt(2)), biv: wBstr([]byte{2})}
+		k.extra = []*W{wTstr("serial"), v.clone()}
+		p("keyuse %s", hexs(k.wire(nil).enc()))
+		k2 := &keyFields{kty: wInt(2), crv: wInt(1), x: wBstr(coordOfLen(r, 32)), y: wBstr(coordOfLen(r, 32))}
+		k2.extra = []*W{wInt(-70001), v.clone()}
+		p("keyuse %s", hexs(k2.wire(nil).enc()))
+	}
 	// labels wrapped in a tag (55799 is stripped silently by the CBOR library): refused
 	for _, tag := range []uint64{55799, 1, 100} {
 		for fi := 0; fi < 5; fi++ {
